@@ -51,6 +51,7 @@ func init() {
 				c12Pair(x, u, d)
 			})
 			c.Inputs(spDefGram, c.Pick(6, 7), c12DefGrammar)
+			c.Inputs(spBrackets, c.Pick(8, 9), c12Brackets)
 			c.Explore("reference-forms", "every sequence of <=7 tokens over {[a] [b] [] (u) ! space x} between two letters, with [a] defined and [b] not: which bracket pairs are inline links, full, collapsed and shortcut references or images, and which are text", -1, 7, c12RefForms)
 			c.Explore("ordering", "all sequences of <=4 segments with one use and 1-3 competing definitions; a segment is the use (shortcut, collapsed, full reference or collapsed image; in a paragraph or as an ATX heading), a definition at top level / in a quote / in a list item / in a list item in a quote / twice in one paragraph, or (at most once) one root container holding a tree of quotes and list items of depth <=3 with definitions at different depths in every order; with and without a final line ending", -1, 4, c12Ordering)
 			for _, p := range []planEntry{{spaces.I, 4, 5}, {spaces.XRef, 5, 6}, {spaces.XLink, 5, 6}, {spaces.L, 3, 4}, {spaces.XNulRef, 5, 6}, {spaces.XDefs, 5, 6}, {spaces.XRefTail, 5, 6}} {
@@ -598,4 +599,163 @@ func c12RefForms(x *X) {
 	}
 	x.Outcome(tree.Hash64(sb.String()))
 	x.Sample(fmt.Sprintf("%q -> %s", doc, sb.String()))
+}
+
+// ---- nested brackets: the "look for link or image" procedure of the spec's appendix --------
+
+var spBrackets = spaces.Space{Name: "X-brackets", Doc: "link and image openers, closers, an inline tail, a defined and an undefined word, nested in every way",
+	Tokens: []string{"[", "![", "]", "(u)", "a", "x"}, Prefix: "y", Suffix: "y\n\n[a]: /A\n"}
+
+func init() { spaces.All = append(spaces.All, spBrackets) }
+
+type brNode struct {
+	html  string // rendered form
+	plain string // text content (for alt)
+}
+
+type brOpener struct {
+	at     int // index into the node list of the opener's own text node
+	tok    int // index of the opener token
+	image  bool
+	active bool
+}
+
+// refBrackets renders a token sequence by the procedure of the spec's appendix
+// ("look for link or image"): at a closing bracket take the nearest opener; if
+// it is inactive, or nothing that follows makes a link (an inline tail; a label
+// that is defined; "[]" or nothing with the bracketed text itself a defined
+// label), both brackets are text; otherwise the nodes between them become the
+// link's content, and after a link (not an image) all earlier "[" openers are
+// deactivated, because links may not contain links.
+func refBrackets(toks []string) string {
+	var nodes []brNode
+	var stack []brOpener
+	text := func(s string) { nodes = append(nodes, brNode{html: s, plain: s}) }
+	// labelAt: toks[i] == "[": a link label made of plain words follows?
+	labelAt := func(i int) (content string, n int, ok bool) {
+		j := i + 1
+		for j < len(toks) && (toks[j] == "a" || toks[j] == "x" || toks[j] == "(u)") {
+			content += toks[j]
+			j++
+		}
+		if j < len(toks) && toks[j] == "]" {
+			return content, j + 1 - i, true
+		}
+		return "", 0, false
+	}
+	for i := 0; i < len(toks); i++ {
+		t := toks[i]
+		switch t {
+		case "[", "![":
+			stack = append(stack, brOpener{at: len(nodes), tok: i, image: t == "![", active: true})
+			text(t)
+		case "]":
+			if len(stack) == 0 {
+				text("]")
+				continue
+			}
+			o := stack[len(stack)-1]
+			stack = stack[:len(stack)-1]
+			if !o.active {
+				text("]")
+				continue
+			}
+			// the bracketed text as a label of its own: only words, no brackets
+			own, ownOK := "", true
+			for _, w := range toks[o.tok+1 : i] {
+				if w == "a" || w == "x" || w == "(u)" {
+					own += w
+				} else {
+					ownOK = false
+				}
+			}
+			dest, consumed, found := "", 0, false
+			switch {
+			case i+1 < len(toks) && toks[i+1] == "(u)":
+				dest, consumed, found = "u", 1, true
+			case i+1 < len(toks) && toks[i+1] == "[":
+				if l, n, ok := labelAt(i + 1); ok && l != "" {
+					// a link label follows: full reference or nothing
+					if l == "a" {
+						dest, consumed, found = "/A", n, true
+					}
+				} else if ok && l == "" {
+					// "[]": collapsed reference
+					if ownOK && own == "a" {
+						dest, consumed, found = "/A", n, true
+					}
+				} else if ownOK && own == "a" {
+					// what follows is no label: shortcut reference
+					dest, found = "/A", true
+				}
+			default:
+				if ownOK && own == "a" {
+					dest, found = "/A", true
+				}
+			}
+			if !found {
+				text("]")
+				continue
+			}
+			var inner, plain strings.Builder
+			for _, nd := range nodes[o.at+1:] {
+				inner.WriteString(nd.html)
+				plain.WriteString(nd.plain)
+			}
+			nodes = nodes[:o.at]
+			if o.image {
+				nodes = append(nodes, brNode{html: fmt.Sprintf(`<img src="%s" alt="%s">`, dest, plain.String()), plain: plain.String()})
+			} else {
+				nodes = append(nodes, brNode{html: fmt.Sprintf(`<a href="%s">%s</a>`, dest, inner.String()), plain: plain.String()})
+				for k := range stack {
+					if !stack[k].image {
+						stack[k].active = false
+					}
+				}
+			}
+			i += consumed
+		default:
+			text(t)
+		}
+	}
+	var sb strings.Builder
+	for _, nd := range nodes {
+		sb.WriteString(nd.html)
+	}
+	return sb.String()
+}
+
+func c12Brackets(x *X, in []byte) {
+	doc := string(in)
+	body := strings.TrimSuffix(strings.TrimPrefix(doc, spBrackets.Prefix), spBrackets.Suffix)
+	// re-tokenize (the alphabet is uniquely decodable; "![" before "[")
+	var toks []string
+	for i := 0; i < len(body); {
+		matched := false
+		for _, t := range []string{"![", "(u)", "[", "]", "a", "x"} {
+			if strings.HasPrefix(body[i:], t) {
+				toks = append(toks, t)
+				i += len(t)
+				matched = true
+				break
+			}
+		}
+		if !matched {
+			return
+		}
+	}
+	// "(u)" after plain text is text; inside a label lookahead it never occurs
+	want := "<p>y" + refBrackets(toks) + "y</p>"
+	blocks, refs := cm.Parse(clone(in))
+	got := ref.Norm(renderCfg(blocks, refs, cm.SoftBreakPreserve, false))
+	x.Validated()
+	if w := ref.Norm(want); got != w {
+		x.Fail("nested-brackets", "", in, "%q renders (normalized) %q; the spec's link/image procedure (a defined, x undefined) gives %q", doc, got, w)
+		return
+	}
+	if strings.Contains(want, "<a ") || strings.Contains(want, "<img ") {
+		x.Nontrivial()
+	}
+	x.Outcome(tree.Hash64(want))
+	x.Sample(fmt.Sprintf("%q -> %s", doc, want))
 }
